@@ -35,9 +35,9 @@ CHECKS = {
         "redefined under the CSS cascade, !important, repeated declarations, same selector repeated, nesting <= 3, carry-through constructs, threshold-band pairs, a deterministic core x all 16 settings) - counts vs an independent "
         "per-rule classification, report vs written file vs Python API vs WCAG oracle, attention rules unchanged. Three defects repaired, two recorded as known findings.",
    note=TB + "assumed contracts: tinycss2-facing helpers total; API facts from C01/C06/C14/C15; shape of the `variables` map. tinycss2 as trusted reader; file-level part bounded to the corpus; known findings matched by (failure kind | trigger).", ref='§8 C08, §11'),
- 'C09': dict(cat='other', tech='frame proof by the effect checker on the real ASTs + z3 string lemma (engine C) for the files touched; bounded structural diff of input vs output on a stylesheet corpus (engine E)',
+ 'C09': dict(cat='other', tech='frame proof by the effect checker on the real ASTs + z3 string lemma (engine C) for the files touched; contract-based deductive verification of the declaration writes on the mechanically extracted per-rule and at-rule blocks (engine A, z3); bounded structural diff of input vs output on a stylesheet corpus (engine E)',
    text="proved: the only writes of the package are open(output_path,'w') in main / generate_report / to_html_bulk, output_path = parent/(stem+'_cm'+suffix) assigned once, the report path is the literal default, the only read is the "
-        "input file, and stem+'_cm'+suffix != stem+suffix for all strings - so inputs are never opened for writing and nothing else is created. Bounded: rules / at-rules / comments / declarations preserved in order on the corpus.",
+        "input file, and stem+'_cm'+suffix != stem+suffix for all strings - so inputs are never opened for writing and nothing else is created. Proved on the extracted blocks of process_nodes_recursive: a declaration is written exactly once, with the API's colour, only when the rule is reported as adjusted (own declaration or the referenced custom property), never for readable / attention rules; @media/@supports content is only re-serialised after the descent. Bounded: rules / at-rules / comments / declarations preserved in order on the corpus.",
    note="click, tinycss2, rich assumed not to write files; tinycss2 trusted for the diff.", ref='§8 C09'),
  'C18': dict(cat='other', tech='structural obligations on the real ASTs of get_css_files and main (engine C) + bounded directory-tree runs of the real command (engine E)',
    text="proved on the AST: the _cm.css guard dominates every directory-branch yield; the per-file loop body is one try/except Exception whose handler cannot leave the loop; per-file state is rebound inside the loop; "
